@@ -54,6 +54,7 @@ deriving Repr, Inhabited
 structure MState where
   cfg : Cfg
   lats : List (Nat × LatM) := []
+  planes : List (Nat × Nat) := []      -- session uuid ↦ largest ground-plane count reported so far (C20)
   sessions : List MSess := []
   ev : Nat := 0
   viol : Array Violation := #[]
@@ -476,6 +477,23 @@ def MState.step (m : MState) (st : IStep) : MState :=
       | none => m
     | _ => m
   let m := m.registry st
+  -- C20 retention: the number of stored planes a session reports never goes down while the session lives
+  let m := match st.ev with
+    | .handle c _ _ =>
+      match m0.whereIs c with
+      | some (s, _) =>
+        st.extra.foldl (fun (m : MState) (x : String) =>
+          match x.splitOn " " with
+          | ["debug", _, p] =>
+            match (p.drop 7).toString.toNat? with
+            | some n =>
+              let last := ((m.planes.find? fun (q : Nat × Nat) => q.1 == s.uuid).map Prod.snd).getD 0
+              let m := if n < last then m.bad "C20" "samples-lost" s!"session {s.uuid} reported {last} planes earlier, now {n}" else m
+              { m with planes := (m.planes.filter fun (q : Nat × Nat) => q.1 != s.uuid) ++ [(s.uuid, max n last)] }
+            | none => m
+          | _ => m) m
+      | none => m
+    | _ => m
   { m with ev := m.ev + 1 }
 
 def runMonitors (cfg : Cfg) (tr : List IStep) : List Violation :=
